@@ -177,3 +177,23 @@ def guards_of(g, node, dom=None):
                     t = v
         out.append((t, b.polarity))
     return out
+
+
+def mapped_sequence(g, node, e):
+    """`e` denotes [ELT for T in ITER]: a comprehension / generator, or a local bound to `[]` and filled only by
+    `e.append(ELT)` as the single statement of `for T in ITER:`.  -> (ITER, T, ELT) expressions, or None"""
+    if isinstance(e, (ast.GeneratorExp, ast.ListComp)) and len(e.generators) == 1 and not e.generators[0].ifs:
+        return e.generators[0].iter, e.generators[0].target, e.elt
+    if isinstance(e, ast.Name):
+        defs = prov.rd_of(g).get(node.id, {}).get(e.id, ())
+        dn = [g.nodes[i] for i in defs]
+        if len(dn) == 1 and dn[0].kind == "stmt" and isinstance(dn[0].ast, ast.Assign) and dump(dn[0].ast.value) in ("[]", "list()"):
+            apps = [(n, c) for n in g.live_nodes() for c in node_calls(n) if dump(c.func) == e.id + ".append"]
+            other = [n for n in g.live_nodes() for c in node_calls(n) if isinstance(c.func, ast.Attribute) and dump(c.func.value) == e.id
+                     and c.func.attr not in ("append",) and n.id != node.id]
+            if len(apps) == 1 and not other and len(apps[0][1].args) == 1:
+                n, c = apps[0]
+                loops = [l for l in g.live_nodes() if l.kind == "for_body" and any(sub is n.ast for st_ in l.ast.body for sub in ast.walk(st_))]
+                if len(loops) == 1 and len(loops[0].ast.body) == 1 and not loops[0].ast.orelse:
+                    return loops[0].ast.iter, loops[0].ast.target, c.args[0]
+    return None
